@@ -67,7 +67,7 @@ var (
 )
 
 func runC02(a *A) {
-	r := resolveRoles(a, "C02-R0")
+	r := resolveRolesG(a, "C02-R0", "pt")
 	if r == nil {
 		return
 	}
